@@ -244,7 +244,9 @@ def gen_case(rng, i=0):
         elif x < 0.75:
             items.append(('remove',))
         else:
-            items.append(('detour', fresh_trig()))
+            # on a fresh trigger (removed by name), or on a trigger that nested scopes declare, too (removed by a
+            # destination filter that matches nothing else)
+            items.append(('detour', fresh_trig()) if r.random() < 0.4 else ('detour_f', r.randrange(ne)))
     # a nested-scope detour: some compound carries transitions on a fresh trigger that are removed again
     nested_detour = None
     compounds = [t for t in tops if t['children']]
@@ -252,6 +254,9 @@ def gen_case(rng, i=0):
         nested_detour = (r.choice(compounds), fresh_trig())
 
     rA, rB = random.Random(r.random()), random.Random(r.random())
+    SINK = 99      # a top-level state no generated transition targets: destination of filtered detours
+    A.append(['states', [['name', [SINK], dict(DEFAULT_ATTRS)]]])
+    B.append(['states', [['name', [SINK], dict(DEFAULT_ATTRS)]]])
     for it in items:
         if it[0] == 'tree':
             d = it[1]
@@ -315,6 +320,25 @@ def gen_case(rng, i=0):
                 sp = p[1:] if len(p) > 1 else sp
             A.append(['remove', trig, sp, dp])
             B.append(['remove', trig, sp, dp])
+        elif it[0] == 'detour_f':
+            trig = it[1]
+            if not known:
+                continue
+            for script, sr in ((A, rA), (B, rB)):
+                if sr.random() < 0.5:
+                    g3 = hsm.HGen(sr)
+                    g3.cb = 800
+                    src = sr.choice(known)
+                    ts = []
+                    for _ in range(sr.randint(1, 2)):
+                        t = g3.trans(known, 0)
+                        t['src'], t['dst'] = (src if sr.random() < 0.7 else sr.choice(known)), [SINK]
+                        ts.append([trig, t])
+                    script.append(['trans', ts])
+                    if all(t['src'] == src for _, t in ts) and sr.random() < 0.5:
+                        script.append(['remove', trig, src, [SINK]])
+                    else:
+                        script.append(['remove', trig, [], [SINK]])
         else:
             trig = it[1]
             if not known:
@@ -334,7 +358,8 @@ def gen_case(rng, i=0):
             more = ['remove', 0, [], []]
             A.append(more)
             B.append(more)
-    return dict(ign=r.choice([None, None, True, False]), A=A, B=B)
+    hist = [r.randrange(ne + 1) for _ in range(r.randint(2, 7))]
+    return dict(ign=r.choice([None, None, True, False]), A=A, B=B, history=hist)
 
 
 # ====================================================================== implementation side
@@ -443,8 +468,12 @@ def run_script(case, ops):
     flat._import_transitions()
     from transitions.extensions.nesting import HierarchicalMachine as HM
     m = HM(model=None, initial=None, auto_transitions=False, ignore_invalid_triggers=case['ign'])
+    model = CbModel()
     err = []
     for i, o in enumerate(ops):
+        if not m.models and m.states:
+            # the model is registered as soon as a state exists: later calls have to keep it up to date
+            m.add_model(model, initial=list(m.states)[0])
         try:
             if o[0] == 'states':
                 forms = o[1]
@@ -463,7 +492,12 @@ def run_script(case, ops):
                     kw['source'] = sname(o[2])
                 if o[3]:
                     kw['dest'] = sname(o[3])
-                m.remove_transition('e%d' % o[1], **kw)
+                try:
+                    m.remove_transition('e%d' % o[1], **kw)
+                except AttributeError:
+                    # delattr(model, trigger) for a trigger the registered model has no method for (nothing of that
+                    # name was ever added): the removal itself is done; the builder model has no model object
+                    pass
         except Exception as e:  # noqa
             code = {KeyError: 0, ValueError: 1, AttributeError: 2}.get(type(e), 9)
             err = [code, i]
@@ -472,7 +506,29 @@ def run_script(case, ops):
     names = m.get_nested_state_names()
     st = read_states(m.states)
     assert names == [sname(p) for p in tree_paths(st)], (names, st)
-    return [st, read_events(m.events), err]
+    # the convenience methods model.<trigger>() on a short history (compared between the two scripts only)
+    runs = []
+    if not err:
+        if not m.models and m.states:
+            m.add_model(model, initial=list(m.states)[0])
+        tr = flat._import_transitions()
+        for e in case.get('history', []):
+            try:
+                res = ['ret', bool(getattr(model, 'e%d' % e)())]
+            except Exception as ex:  # noqa
+                res = ['exc', 'MachineError' if isinstance(ex, tr.MachineError) else type(ex).__name__]
+            runs.append([e, res, str(getattr(model, 'state', None))])
+    return [st, read_events(m.events), err, runs]
+
+
+class CbModel(object):
+    """every callback name 'cb<N>' resolves to a function; nothing else does"""
+
+    def __getattr__(self, name):
+        if name.startswith('cb') and name[2:].isdigit():
+            n = int(name[2:])
+            return lambda *a, **k: n % 3 != 0
+        raise AttributeError(name)
 
 
 def tree_paths(st, prefix=()):
@@ -516,6 +572,18 @@ def oracle(case, impl_obs):
         return 'state trees differ'
     if a[1] != b[1]:
         return 'global events differ'
+    # model.<trigger>() is compared for the triggers that still have transitions somewhere: a trigger without any
+    # may or may not have left a method behind (embedding registers the methods before remap drops events)
+    def trigs(st, evs):
+        out = {e for e, ts in evs if ts}
+        for d in st:
+            out |= trigs(d[8], d[7])
+        return out
+    live = trigs(a[0], a[1])
+    ra = [x for x in (impl_obs[1][3] if len(impl_obs[1]) > 3 else []) if x[0] in live]
+    rb = [x for x in (impl_obs[2][3] if len(impl_obs[2]) > 3 else []) if x[0] in live]
+    if ra != rb:
+        return 'model.<trigger>() histories differ: %r vs %r' % (ra, rb)
     return None
 
 
